@@ -18,6 +18,7 @@ func AddIf64(addr *int64, delta int64, predicate func(old int64) bool) bool {
 
 	var expect, update int64
 	for {
+		verifYield(VerifSiteAddIfLoad)
 		expect = atomic.LoadInt64(addr)
 		if !predicate(expect) {
 			return false
@@ -25,6 +26,7 @@ func AddIf64(addr *int64, delta int64, predicate func(old int64) bool) bool {
 
 		update = expect + delta
 
+		verifYield(VerifSiteAddIfCas)
 		if atomic.CompareAndSwapInt64(addr, expect, update) {
 			return true
 		}
